@@ -75,6 +75,17 @@ def apply_aliases(prog):
             t = resolve(p)
             if t is not None and t not in known.get(kind, []):
                 back.setdefault(t, []).append(p)
+    # a pinned constant that is gone and not importable under its pinned path any more (it is only reached through
+    # helpers of its new module): the one constant of the same name and type in the same crate is that constant
+    resolved_c = set(p for ps in back.values() for p in ps)
+    for p in known.get("consts", []):
+        if p in defined or p in resolved_c or p.startswith("<"):
+            continue
+        crate, last = p.split("::")[0], p.rpartition("::")[2]
+        cands = [q for q, c in prog.consts.items() if q not in known.get("consts", []) and q.split("::")[0] == crate
+                 and q.rpartition("::")[2] == last and not q.startswith("<")]
+        if len(cands) == 1:
+            back.setdefault(cands[0], []).append(p)
     # renamed functions: a pinned function that is gone, and exactly one function that is new, in the same impl /
     # module, with the same kind and signature -- the pinned name is given back to it
     known_fns = set(known.get("fns", []))
@@ -145,6 +156,28 @@ def apply_aliases(prog):
                     n[key] = v
                 elif isinstance(v, (dict, list)):
                     respell(v, module)
+    prog._respell = respell
+    multi = [(re.compile(r"(?<![\w:])(?:%s)(?![\w])" % "|".join(re.escape(p_) for p_ in sorted(ps, key=len, reverse=True))), ps)
+             for t, ps in back.items() if len(ps) > 1]
+
+    def respell_back(n, module):
+        """inside an expanded helper: a shared moved item is spelled the way the caller's module spells it"""
+        if not multi:
+            return
+        if isinstance(n, list):
+            for x in n:
+                respell_back(x, module)
+        elif isinstance(n, dict):
+            for key, v in n.items():
+                if isinstance(v, str):
+                    if key in _SKIP_KEYS or "::" not in v:
+                        continue
+                    for rx, ps in multi:
+                        v = rx.sub(choose(ps, module), v)
+                    n[key] = v
+                elif isinstance(v, (dict, list)):
+                    respell_back(v, module)
+    prog._respell_back = respell_back
     moved_fns = {}
     for (unit, path), f in list(prog.fns.items()):
         if path != f.get("npath"):
@@ -259,6 +292,10 @@ def apply_field_groups(prog):
                 if len(others) != 1:
                     cands = []
             if len(cands) != 1:
+                # name tokens: `k_val_f` ~ `k_word.fwd` (every token of the pinned name, fillers aside, equals or
+                # abbreviates a token of the new path), same type
+                cands = [x for x in nested if x[2] == mty and (x[0], x[1]) not in used and _tokens_match(mname, x[0], x[1])]
+            if len(cands) != 1:
                 mapping = None
                 break
             used.add((cands[0][0], cands[0][1]))
@@ -323,6 +360,8 @@ def apply_field_groups(prog):
                         out.append({"name": m[(None, fe["name"])][0], "e": sub})
                         continue
                     gs = [(g, f) for (g, f) in m if g == fe["name"]]
+                    while gs and isinstance(sub, dict) and sub.get("k") == "block" and sub.get("expr") is not None:
+                        sub = sub["expr"]           # an expanded constructor helper (`RollingWord::new(..)`)
                     if gs and isinstance(sub, dict) and sub.get("k") == "struct":
                         subf = {x["name"]: x["e"] for x in sub.get("fields", [])}
                         for (g, f) in gs:
@@ -337,6 +376,23 @@ def apply_field_groups(prog):
             continue
         f["body"] = rw(f["body"])
         f["_regrouped"] = True
+
+
+_FILLER = {"val", "value", "word", "reg", "state", "cfg", "config", "info", "data"}
+
+
+def _tokens_match(pinned, group, field):
+    pt = [t for t in pinned.lower().split("_") if t and t not in _FILLER]
+    nt = [t for t in ((group or "") + "_" + field).lower().split("_") if t and t not in _FILLER]
+    if not pt or not nt:
+        return False
+    left = list(nt)
+    for t in pt:
+        hit = next((u for u in left if u == t or u.startswith(t) or t.startswith(u)), None)
+        if hit is None:
+            return False
+        left.remove(hit)
+    return not left
 
 
 def _walk_nodes(n):
